@@ -117,6 +117,15 @@ func runC02(c *engine.Ctx, tier string) {
 	for _, f := range []struct{ id, field string }{{"C02.7a", fCommittedIdx}, {"C02.7b", fAppliedIdx}} {
 		cursorOwnIndex(c, f.id, f.field)
 	}
+	// cursors move only from exactly the predecessor (or, for the first proposal of a target, from nothing)
+	c.Guard(engine.Guard{ID: "C02.7c", Pkg: pkgProposalCtl, Min: 3,
+		Sel:     engine.Sel{Field: fCommittedIdx, RHS: "@OWN"},
+		Require: "@CFG.Status.Committed.Index == @PREV",
+		Why:     "the committed cursor is moved to a proposal only from its predecessor: moving it from anywhere else skips or repeats a merge"})
+	c.Guard(engine.Guard{ID: "C02.7d", Pkg: pkgProposalCtl, Min: 4,
+		Sel:     engine.Sel{Field: fAppliedIdx, RHS: "@OWN"},
+		Require: "@CFG.Status.Applied.Index == @PREV || (@PREV == 0 && !(@CFG.Status.Applied.Index >= @OWN))",
+		Why:     "the applied cursor is moved to a proposal only from its predecessor: an abort or failure that moves it while an earlier proposal is still applying lets the successor overtake it"})
 	// C02.9 negative form: no terminal state while a cursor is provably still at the predecessor
 	for _, s := range []struct {
 		id, field, rhs, cursor string
